@@ -238,6 +238,13 @@ module Pos =
     | XO p -> XO (mul p y)
     | XH -> y
 
+  (** val iter : ('a1 -> 'a1) -> 'a1 -> positive -> 'a1 **)
+
+  let rec iter f x = function
+  | XI n' -> f (iter f (iter f x n') n')
+  | XO n' -> iter f (iter f x n') n'
+  | XH -> f x
+
   (** val compare_cont : comparison -> positive -> positive -> comparison **)
 
   let rec compare_cont r x y =
@@ -419,6 +426,12 @@ let rec map f = function
 | [] -> []
 | a :: t -> (f a) :: (map f t)
 
+(** val flat_map : ('a1 -> 'a2 list) -> 'a1 list -> 'a2 list **)
+
+let rec flat_map f = function
+| [] -> []
+| x :: t -> app (f x) (flat_map f t)
+
 (** val fold_left : ('a1 -> 'a2 -> 'a1) -> 'a2 list -> 'a1 -> 'a1 **)
 
 let rec fold_left f l a0 =
@@ -542,6 +555,18 @@ module Z =
        | Z0 -> Z0
        | Zpos y' -> Zneg (Pos.mul x' y')
        | Zneg y' -> Zpos (Pos.mul x' y'))
+
+  (** val pow_pos : z -> positive -> z **)
+
+  let pow_pos z0 =
+    Pos.iter (mul z0) (Zpos XH)
+
+  (** val pow : z -> z -> z **)
+
+  let pow x = function
+  | Z0 -> Zpos XH
+  | Zpos p -> pow_pos x p
+  | Zneg _ -> Z0
 
   (** val compare : z -> z -> comparison **)
 
@@ -1105,6 +1130,7 @@ type sexpr =
 | SVar of nat * z
 | SInt of z
 | SDec of z * nat
+| SDec8 of z * nat
 | SNeg of sexpr
 | SPar of sexpr
 | SBin of binop * sexpr * sexpr
@@ -1135,6 +1161,7 @@ let rec s_regroup e = match e with
 type tok =
 | TInt of z
 | TDecT of z * nat
+| TDec8 of z * nat
 | TId of str
 | TPlus
 | TMinus
@@ -1159,6 +1186,61 @@ let digit_val c =
 let digits_val ds =
   fold_left (fun acc c ->
     Z.add (Z.mul acc (Zpos (XO (XI (XO XH))))) (digit_val c)) ds Z0
+
+(** val lex_suffix : str -> (z * bool) * str **)
+
+let lex_suffix l =
+  let (p, r1) =
+    match l with
+    | [] -> ((Z0, false), l)
+    | c :: r ->
+      if (||)
+           ((||) ((||) (ascii_eqb c 'd') (ascii_eqb c 'D')) (ascii_eqb c 'e'))
+           (ascii_eqb c 'E')
+      then let isd = (||) (ascii_eqb c 'd') (ascii_eqb c 'D') in
+           (match r with
+            | [] -> ((Z0, false), l)
+            | sg :: r2 ->
+              if (&&) ((||) (ascii_eqb sg '+') (ascii_eqb sg '-'))
+                   (match r2 with
+                    | [] -> false
+                    | d :: _ -> is_digit d)
+              then let ds = take_while is_digit r2 in
+                   (((if ascii_eqb sg '-'
+                      then Z.opp (digits_val ds)
+                      else digits_val ds), isd), (drop_while is_digit r2))
+              else if is_digit sg
+                   then (((digits_val (take_while is_digit r)), isd),
+                          (drop_while is_digit r))
+                   else ((Z0, false), l))
+      else ((Z0, false), l)
+  in
+  let (ex, dbl) = p in
+  (match r1 with
+   | [] -> ((ex, dbl), r1)
+   | u :: l0 ->
+     (match l0 with
+      | [] -> ((ex, dbl), r1)
+      | k :: r3 ->
+        if (&&) (ascii_eqb u '_') (is_id_char k)
+        then let kind = take_while is_id_char (k :: r3) in
+             ((ex, (negb (str_eqb kind (lit ('4'::[]))))),
+             (drop_while is_id_char (k :: r3)))
+        else ((ex, dbl), r1)))
+
+(** val dec_norm : z -> nat -> z -> z * nat **)
+
+let dec_norm m sc ex =
+  if Z.leb ex (Z.of_nat sc)
+  then (m, (Z.to_nat (Z.sub (Z.of_nat sc) ex)))
+  else ((Z.mul m (Z.pow (Zpos (XO (XI (XO XH)))) (Z.sub ex (Z.of_nat sc)))),
+         O)
+
+(** val dec_tok : z -> nat -> z -> bool -> tok **)
+
+let dec_tok m sc ex dbl =
+  let (m', sc') = dec_norm m sc ex in
+  if dbl then TDec8 (m', sc') else TDecT (m', sc')
 
 (** val lex : nat -> str -> tok list option **)
 
@@ -1185,17 +1267,33 @@ let rec lex fuel l =
                   | d :: r2 ->
                     if ascii_eqb d '.'
                     then let fs = take_while is_digit r2 in
-                         cons (TDecT ((digits_val (app ds fs)), (length fs)))
-                           (drop_while is_digit r2)
-                    else cons (TInt (digits_val ds)) (d :: r2))
+                         let (p, rest) = lex_suffix (drop_while is_digit r2)
+                         in
+                         let (ex, dbl) = p in
+                         cons
+                           (dec_tok (digits_val (app ds fs)) (length fs) ex
+                             dbl) rest
+                    else let (p, rest) = lex_suffix (d :: r2) in
+                         let (ex, dbl) = p in
+                         if Nat.eqb (length rest) (length (d :: r2))
+                         then cons (TInt (digits_val ds)) (d :: r2)
+                         else if ascii_eqb d '_'
+                              then cons (TInt (digits_val ds)) rest
+                              else cons (dec_tok (digits_val ds) O ex dbl)
+                                     rest)
             else if ascii_eqb c '.'
                  then (match r with
                        | [] -> None
                        | d :: _ ->
                          if is_digit d
                          then let fs = take_while is_digit r in
-                              cons (TDecT ((digits_val fs), (length fs)))
-                                (drop_while is_digit r)
+                              let (p, rest) =
+                                lex_suffix (drop_while is_digit r)
+                              in
+                              let (ex, dbl) = p in
+                              cons
+                                (dec_tok (digits_val fs) (length fs) ex dbl)
+                                rest
                          else None)
                  else if is_id_start c
                       then cons (TId (c :: (take_while is_id_char r)))
@@ -1298,6 +1396,7 @@ let rec p_primary f ts =
        (match t with
         | TInt z0 -> Some ((SInt z0), r)
         | TDecT (m, s) -> Some ((SDec (m, s)), r)
+        | TDec8 (m, s) -> Some ((SDec8 (m, s)), r)
         | TId name ->
           (match r with
            | [] -> None
@@ -1592,6 +1691,10 @@ let rec sexpr_eqb a b =
     (match b with
      | SDec (m', s') -> (&&) (Z.eqb m m') (Nat.eqb s s')
      | _ -> false)
+  | SDec8 (m, s) ->
+    (match b with
+     | SDec8 (m', s') -> (&&) (Z.eqb m m') (Nat.eqb s s')
+     | _ -> false)
   | SNeg x -> (match b with
                | SNeg y -> sexpr_eqb x y
                | _ -> false)
@@ -1685,28 +1788,6 @@ let rec fill width cur_len cur chs = match chs with
   then fill width (add cur_len (length c)) (c :: cur) r
   else ((cur, cur_len), chs)
 
-(** val rfind_hyphen : str -> nat -> nat -> nat option -> nat option **)
-
-let rec rfind_hyphen l pos limit best =
-  match l with
-  | [] -> best
-  | c :: r ->
-    if Nat.ltb pos limit
-    then rfind_hyphen r (S pos) limit
-           (if ascii_eqb c '-' then Some pos else best)
-    else best
-
-(** val long_end : str -> nat -> nat **)
-
-let long_end chunk space_left =
-  match rfind_hyphen chunk O space_left None with
-  | Some h ->
-    if (&&) (Nat.ltb O h)
-         (existsb (fun c -> negb (ascii_eqb c '-')) (firstn h chunk))
-    then S h
-    else space_left
-  | None -> space_left
-
 (** val wrap_round : nat -> bool -> str list -> str list * str list **)
 
 let wrap_round width first chs =
@@ -1716,22 +1797,33 @@ let wrap_round width first chs =
     | c :: r -> if (&&) (negb first) (all_blank c) then r else chs
   in
   let (p, rest) = fill width O [] chs1 in
-  let (cur, cur_len) = p in
-  let (cur2, rest2) =
-    match rest with
-    | [] -> (cur, rest)
-    | c :: r ->
-      if Nat.ltb width (length c)
-      then let e = long_end c (sub width cur_len) in
-           (((firstn e c) :: cur), ((skipn e c) :: r))
-      else (cur, rest)
-  in
-  let cur3 =
-    match cur2 with
-    | [] -> []
-    | c :: r -> if all_blank c then r else cur2
-  in
-  ((rev0 cur3), rest2)
+  let (cur, _) = p in
+  (match rest with
+   | [] ->
+     let cur3 =
+       match cur with
+       | [] -> []
+       | c :: r -> if all_blank c then r else cur
+     in
+     ((rev0 cur3), rest)
+   | c :: r ->
+     if (&&) (Nat.ltb width (length c))
+          (match cur with
+           | [] -> true
+           | _ :: _ -> false)
+     then let cur2 = c :: cur in
+          let cur3 =
+            match cur2 with
+            | [] -> []
+            | c0 :: r0 -> if all_blank c0 then r0 else cur2
+          in
+          ((rev0 cur3), r)
+     else let cur3 =
+            match cur with
+            | [] -> []
+            | c0 :: r0 -> if all_blank c0 then r0 else cur
+          in
+          ((rev0 cur3), rest))
 
 (** val wrap_chunks : nat -> nat -> bool -> str list -> str list list **)
 
@@ -1747,12 +1839,46 @@ let rec wrap_chunks fuel width first chs =
         | [] -> wrap_chunks f width first rest
         | _ :: _ -> line :: (wrap_chunks f width false rest)))
 
-(** val wrap : nat -> str -> str list **)
+(** val wrap_words : nat -> str -> str list **)
 
-let wrap width text =
+let wrap_words width text =
   map concat
     (wrap_chunks (add (mul (S (S O)) (length text)) (S (S O))) width true
       (chunks_of text))
+
+(** val is_cut_char : char -> bool **)
+
+let is_cut_char c =
+  (||) ((||) (ascii_eqb c '(') (ascii_eqb c ')')) (ascii_eqb c ',')
+
+(** val rfind_cut : str -> nat -> nat -> nat option -> nat option **)
+
+let rec rfind_cut l pos limit best =
+  match l with
+  | [] -> best
+  | c :: r ->
+    if Nat.ltb pos limit
+    then rfind_cut r (S pos) limit (if is_cut_char c then Some pos else best)
+    else best
+
+(** val split_long : nat -> nat -> str -> str list **)
+
+let rec split_long fuel width line =
+  match fuel with
+  | O -> line :: []
+  | S f ->
+    if Nat.ltb width (length line)
+    then (match rfind_cut line O width None with
+          | Some h ->
+            (firstn (S h) line) :: (split_long f width (skipn (S h) line))
+          | None -> line :: [])
+    else line :: []
+
+(** val wrap : nat -> str -> str list **)
+
+let wrap width text =
+  flat_map (fun line -> split_long (length line) width line)
+    (wrap_words width text)
 
 (** val equation_block : str list -> nat -> str -> str option **)
 
